@@ -701,7 +701,7 @@ func (w *World) ruleRefKeyPins(r *Report, rule string) {
 // ---- C05 ----
 
 func rulesC05(w *World, r *Report) {
-	w.ruleCountedTraversals(r, "C05.R6 every field of a class is named, written, looked up and read", 5, nil)
+	w.ruleCountedTraversals(r, "C05.R6 every field of a class is named, written, looked up and read", 3, nil)
 	ro := w.fn("(*Decoder).readObject")
 	if ro == nil {
 		r.undecided("C05.anchor", "(*Decoder).readObject", "-", "anchor not found")
